@@ -1,6 +1,6 @@
 """check configuration for C14 (loaded by lib/zvprops.py)"""
 
-PROP = {'gen_tables': ['Callers', 'TransSweeten'],
+PROP = {'gen_tables': ['Callers', 'TransSweeten', 'TransMessage'],
  'rule': 'ops: every argument shape over {Field, error, string, int, nil, struct} up to length 4 (quick) / 8 (thorough, 2 015 539 shapes, in '
          'batches of 2048) through With, WithLazy and a rotating *w method; random argument lists of length ≤ 12 (structured pair/field/error '
          'stream + hostile stream: empty/duplicate/reserved/non-UTF-8 keys, typed-nil errors, zero Fields, 12 kinds of other values) through '
@@ -15,7 +15,7 @@ PROP = {'gen_tables': ['Callers', 'TransSweeten'],
                  'diagnostics are issued through Logger.Error: they are required only where the core enables Error (DESIGN §6.1)',
                  'which arm of zap.Any a value takes is a hand-written table in the model for the 17 generated dynamic types (validated by Corr; '
                  'the oracle compares every recorded field with zap.Any(k, v) itself through Field.Equals)'],
- 'technique': 'Lean 4: the Go index loop of sweetenFields proved total and equal to a structural sweep; accounting by functional induction; method routing decided over the regenerated Callers table; tie: all argument shapes up to length 5/8 executed on the real code + translated source (sweetenFields incl. its three diagnostic messages proved equal to the model)',
+ 'technique': 'Lean 4: the Go index loop of sweetenFields proved total and equal to a structural sweep; accounting by functional induction; method routing decided over the regenerated Callers table; tie: all argument shapes up to length 5/8 executed on the real code + translated source (sweetenFields incl. its three diagnostic messages, getMessage / getMessageln and the whole of log / logln proved equal to the model)',
  'level_text': 'accounting/fields_in_order/first_error_key hold for every argument list; every exported SugaredLogger method is shown (Gen) to route through log/logln/sweetenFields.',
  'level_note': 'fmt is a parameter with three stated facts; which arm of zap.Any a value takes is a model table validated by comparing every field with zap.Any itself.',
 }
